@@ -77,6 +77,19 @@ theorem trie_decode_codes (root : TDict) (cs : List (Bytes × Nat))
   have := decode_codes root [] root (by simp [walk]) cs hcs
   simpa using this
 
+/-- A trie built by `FileCMap.add_code2cid` from a prefix-free code table has exactly the table's codes:
+every entry is a code with its CID … -/
+theorem trie_build_codes (tab : List (Bytes × Nat)) (t : TDict) (hp : PrefixFree tab)
+    (hb : buildTrie tab [] = .ok t) : ∀ e ∈ tab, walk t e.1 = some (.leaf e.2) :=
+  (buildTrie_walk tab [] t hp hb).1
+
+/-- … hence a string made of codes of the table decodes, with the trie built from the table, to their CIDs
+(segmentation by the flat code table = `CMap.decode` on the built trie). -/
+theorem trie_build_decode (tab : List (Bytes × Nat)) (t : TDict) (hp : PrefixFree tab)
+    (hb : buildTrie tab [] = .ok t) (cs : List (Bytes × Nat)) (hcs : ∀ e ∈ cs, e ∈ tab) :
+    trieDecode t (cs.map (·.1)).flatten = cs.map (·.2) :=
+  trie_decode_codes t cs (fun e he => trie_build_codes tab t hp hb e (hcs e he))
+
 /-- non-vacuity: a mixed one/two-byte CMap (0x41 ↦ 1, 0x81 0x40 ↦ 7), string `41 8140 41 81`. -/
 example :
     let root : TDict := [(0x41, .leaf 1), (0x81, .node [(0x40, .leaf 7)])]
